@@ -13,6 +13,31 @@ TB_CONN = [
 ]
 
 PROPS = {
+    'C04': dict(
+        level='proof',
+        verus_units=['broker_service', 'broker_conn_state'],
+        trusted_base=TB_VERUS + [
+            'ConnectionId and the UUID cookie newtypes are opaque keys whose Hash/Eq obey vstd\'s key model '
+            '(obeys_key_model axioms; justified by conn_id.rs / ids.rs deriving both from the same field)',
+            'vstd specifications of std HashMap / HashSet / hash_map::Entry',
+        ],
+        assumptions=[
+            'Broker::{subscribe_event, unsubscribe_event, subscribe_all_events, unsubscribe_all_events, '
+            'remove_event_subscription, remove_all_events_subscription} forward the returned boolean to the owner and '
+            'only the owner: NOT verified (handler layer)',
+            'callers establish the preconditions (inv; serial not pending / pending for add/remove_function_call)',
+        ],
+        undecided_clauses=[
+            'emit_event fan-out loop and owner check (broker.rs); ConnectionState::is_subscribed_to_event (Option::map '
+            'closure has no spec) and ConnectionState::subscribe_event (Entry::or_default has no vstd spec)',
+            'ServiceDestroyed notification once per subscribed connection (remove_service)',
+            'client-side subscription bookkeeping (aldrin/src/client/*.rs)',
+        ],
+        explanation='every subscribe/unsubscribe operation of Service returns true exactly when the subscriber set of '
+                    'that event (or of all-events) changes between empty and non-empty, with the whole-state frame; '
+                    'induction over any history follows from the invariant. The per-connection mirror is proved '
+                    'against its set view.',
+    ),
     'C05': dict(
         level='proof',
         verus_units=['broker_channel'],
